@@ -839,7 +839,7 @@ func checkDecodedFromPayload(p *core.Prog, r *core.Result) {
 		return ""
 	}
 	n := 0
-	for _, c := range core.CallsTo(decode, push) {
+	for _, c := range decoderPushSites(p, decode, push) {
 		n++
 		construct := fmt.Sprintf("pickle.(*Decoder).decode#push-source-%d", n)
 		if name := offending(c.Common().Args[1], 0, map[ssa.Value]bool{}); name != "" {
@@ -849,4 +849,29 @@ func checkDecodedFromPayload(p *core.Prog, r *core.Result) {
 		}
 	}
 	r.Floor("R7.13", n, 10, "push sites in decode")
+}
+
+// decoderPushSites: the calls of (*Decoder).push in decode, followed by those in the other functions of the package
+// (opcode helpers such as decodeScalar(op)), in a fixed order.
+func decoderPushSites(p *core.Prog, decode, push *ssa.Function) []ssa.CallInstruction {
+	sites := core.CallsTo(decode, push)
+	var others []ssa.CallInstruction
+	for _, c := range p.StaticCallers(push) {
+		f := c.Parent()
+		for f.Parent() != nil {
+			f = f.Parent()
+		}
+		if f == decode || f.Pkg != decode.Pkg {
+			continue
+		}
+		others = append(others, c)
+	}
+	sort.SliceStable(others, func(i, j int) bool {
+		a, b := others[i].(ssa.Instruction), others[j].(ssa.Instruction)
+		if fa, fb := fname(a.Parent()), fname(b.Parent()); fa != fb {
+			return fa < fb
+		}
+		return a.Pos() < b.Pos()
+	})
+	return append(sites, others...)
 }
